@@ -34,8 +34,11 @@ def _compile_job(job):
     """job = (seed, index, label, tflite bytes, opts).  Runs in a forked worker."""
     import traceback
 
+    import time
+
     seed, idx, label, data, opts, tgt = job
     out = {"idx": idx, "label": label, "opts": opts, "tgt": tgt}
+    t_start, w_start = time.process_time(), time.time()
     try:
         import c16_lib
         import pipeline
@@ -104,9 +107,17 @@ def _compile_job(job):
 
         out.update(site=pipe_common.exc_site(res.tb, res.exc) if res.status == "internal-exception" else "", status=res.status, exc=(type(res.exc).__name__ + ": " + str(res.exc))[:200] if res.exc is not None else "",
                    tb=res.tb[-800:], out_model=res.out_model, stdout=res.stdout, seen=seen)
+        if res.status == "ok" and res.out_model is not None:
+            import preserve_dump
+
+            # both files as the plain walker sees them (the request format of C11's `preserve`): every verdict on them is Lean's
+            line, _s, _o = preserve_dump.preserve_line(data, res.out_model)
+            out["graph_toks"] = line.split(" ", 1)[1]
+            out["n_src_ops"] = len(_s["subgraphs"][0]["operators"]) if _s["subgraphs"] else 0
         pipeline.reset_process_state()
     except BaseException:  # noqa: B902
         out["harness_exception"] = traceback.format_exc()[-1500:]
+    out["cpu_s"], out["wall_s"] = time.process_time() - t_start, time.time() - w_start
     return out
 
 
@@ -132,12 +143,27 @@ def main():
     common.setup_repo_path()
     import c16_lib
     import c16_nets
+    import c16_opts_nets
     import fbwalk
     import netgen
     import pipeline
 
+    import pending
+
+    # repairs written but not yet in the tree under test: their keys stay open exactly as long as the patch still applies
+    # forward to this tree (harness/pending.py); Model/Constraints.lean follows the REPAIRED behaviour of
+    # constraint_resize (C13-22), constraint_tens_quant_per_axis (C13-24) and constraint_bias_40bit (C13-27)
+    open_pending = pending.register(ck)
     rng = ck.rng
     explore = "--explore" in os.sys.argv
+    import time as _time
+    _t0 = [_time.time()]
+
+    def mark(what):
+        if explore or os.environ.get("VERIF_TIMING"):
+            print(f"TIMING {what}: {_time.time() - _t0[0]:.1f}s", flush=True)
+        _t0[0] = _time.time()
+    mark("lean stage")
     if ck.replay_arg:
         replay(ck, ck.replay_arg)
         return
@@ -203,6 +229,38 @@ def main():
     for (i, doc, obs), j in zip(judge_meta, jouts):
         if j != "1" and obs != "raised":
             spec_rej.append((i, doc, obs))
+    # A disagreement that names a constraint whose repair is pending for this tree is that recorded defect (the model
+    # follows the repaired function); everything else is reported as before.
+    def fn_key(which, m, r):
+        cm, cr = c16_lib.canon_model(m), c16_lib.canon_real(r)
+        if cm.startswith("cpu "):
+            return f"fn-dis:{which}:model-rejects:{cm.split(' ')[1]}"
+        if cr.startswith("cpu "):
+            return f"fn-dis:{which}:real-rejects:{cr.split(' ')[1]}"
+        return None
+
+    def spec_key(doc, rs="", ru=""):
+        parts = doc.split(" ")
+        if parts[0] == "cpu" and len(parts) > 2:
+            return "spec-rej:" + parts[2]
+        for real in (rs, ru):
+            if real.startswith("cpu ") and parts[0] == "npu":
+                return "spec-rej:real-rejects:" + real.split(" ")[1]
+        return None
+
+    pending_fn = [t for t in fn_dis if ck.finding_key_known(fn_key(t[1], t[2], t[3])) is not None]
+    for i, which, m, r in pending_fn:
+        fam, label, d = meta[i][:3]
+        ck.violation(f"constraint function differs from its repaired model on a stub {fam} operator ({label}): model '{m}' real '{r}'",
+                     {"family": fam, "label": label, "descriptor": d[:3000], "model": m, "real": r}, found_input=True, key=fn_key(which, m, r))
+    fn_dis = [t for t in fn_dis if t not in pending_fn]
+    pending_spec = [t for t in spec_rej if ck.finding_key_known(spec_key(t[1], meta[t[0]][3], meta[t[0]][4])) is not None]
+    for i, doc, obs in pending_spec:
+        fam, label, d, rs, ru, run = meta[i]
+        ck.violation(f"documented constraint and the unrepaired function disagree on a stub {fam} operator ({label}): report '{doc[:120]}', real {obs}",
+                     {"family": fam, "label": label, "descriptor": d[:3000], "documented": doc, "semantic": rs, "supported": ru},
+                     found_input=True, key=spec_key(doc, rs, ru))
+    spec_rej = [t for t in spec_rej if t not in pending_spec]
     for i, doc, obs in spec_rej[:6]:
         fam, label, d, rs, ru, run = meta[i]
         ck.violation(f"documented constraints and the real verdict disagree on a stub {fam} operator ({label}): the report says "
@@ -223,8 +281,9 @@ def main():
         for i, doc, obs in spec_rej[:20]:
             print("SPEC-REJ", meta[i][0], meta[i][1], doc, obs, meta[i][3], meta[i][4])
 
+    mark("function level")
     # ---- (b) pipeline level -----------------------------------------------------------------------------------------
-    nets = c16_nets.cases(random.Random(ck.seed * 7919 + 16), ck.thorough)
+    nets = c16_opts_nets.all_cases(random.Random(ck.seed * 7919 + 16), ck.thorough)
     jobs = []
     for idx, (label, net) in enumerate(nets):
         try:
@@ -232,19 +291,38 @@ def main():
         except Exception:  # noqa: B902
             ck.count("net_unserialisable")
             continue
-        accs = ACCS if ck.thorough else [ACCS[(idx + k * 3 + ck.seed) % 6] for k in range(2 if idx % 7 == 0 else 1)]
+        if ck.thorough:
+            accs = ACCS
+        elif getattr(net, "both_classes", False):
+            # one accelerator whose SHRAM has no reserved LUT banks (LUT activations are not merged into the producer) and one with
+            accs = [ACCS[(idx + ck.seed) % 2], ACCS[2 + (idx + ck.seed) % 4]]
+        else:
+            accs = [ACCS[(idx + ck.seed) % 6]]
         for acc in accs:
-            opts = ["--accelerator-config", acc]
+            opts = ["--accelerator-config", acc] + list(getattr(net, "extra_opts", []))
             if (idx + ck.seed) % 5 == 0:
                 opts.append("--show-cpu-operations")
             jobs.append((ck.seed, idx, label, data, opts, getattr(net, "tgt", None)))
     pipeline.load_vela()
+    # scratch directories of the ~4000 compilations on a memory file system: creating and removing a directory on the disk-backed /tmp
+    # costs more than the compilation itself when the machine is busy (measured: 40 ms vs 0.06 ms per mkdtemp + rmtree)
+    if os.path.isdir("/dev/shm") and os.access("/dev/shm", os.W_OK) and not os.environ.get("TMPDIR"):
+        tempfile.tempdir = "/dev/shm"
     ctx = multiprocessing.get_context("fork")
     with ProcessPoolExecutor(min(16, os.cpu_count() or 4), mp_context=ctx) as ex:
         results = list(ex.map(_compile_job, jobs, chunksize=2))
+    mark(f"{len(jobs)} compilations")
+    if explore or os.environ.get("VERIF_TIMING"):
+        tot = sum(r.get("cpu_s", 0) for r in results)
+        print(f"TIMING compile wall total {sum(r.get('wall_s', 0) for r in results):.1f}s over {min(16, os.cpu_count() or 4)} workers")
+        print(f"TIMING compile cpu total {tot:.1f}s; slowest:", [(round(r.get("cpu_s", 0), 2), r["label"]) for r in sorted(results, key=lambda r: -r.get("cpu_s", 0))[:25]])
+        fam = collections.Counter()
+        for r in results:
+            fam[r["label"].split(" ")[0]] += r.get("cpu_s", 0)
+        print("TIMING per family:", [(k, round(v, 1)) for k, v in fam.most_common(25)])
     preqs, pmeta = [], []
     c13_skipped, crashes = 0, []
-    c13_sites = [k["key"] for k in common.load_known_findings() if k["property"] == "C13"]
+    c13_sites = [k["key"] for k in common.load_known_findings() if k["property"] == "C13"] + sorted(pending.pending_keys("C13"))
     for r in results:
         if "harness_exception" in r:
             raise common.InfraError("pipeline worker failed:\n" + r["harness_exception"])
@@ -273,7 +351,12 @@ def main():
             if dsc is not None:
                 preqs.append(f"c16 {which} {dsc}")
                 pmeta.append((r, (which, verdict, name, dsc)))
-    pouts = ck.model(preqs)
+    mark("parse outputs")
+    # the same descriptor is asked many times (the 1x1 CONV_2D / RELU neighbours, the operators the checkers see again): ask once
+    uniq = list(dict.fromkeys(preqs))
+    ans = dict(zip(uniq, ck.model(uniq)))
+    pouts = [ans[q] for q in preqs]
+    mark(f"{len(preqs)} doc/place/in-situ requests ({len(uniq)} distinct)")
     pos = 0
     BO = {}
     from ethosu.vela.tflite.BuiltinOperator import BuiltinOperator
@@ -289,18 +372,12 @@ def main():
         return int(e[0]) if e else None
 
     placement, insitu_dis, console_bad = [], [], []
-    judge2, judge2_meta = [], []
     seen_ops = 0
     for (r, k) in pmeta:
         if isinstance(k, int):
             doc, run, docc = pouts[pos], pouts[pos + 1], pouts[pos + 2]
             pos += 3
-            s = r["src"][k]
-            code = builtin_of(s["type"])
-            on_cpu = any(c == code and set(names) == set(s["out_names"]) for c, names in r["cpu_ops"])
-            obs = "cpu" if on_cpu else "npu"
-            judge2 += [f"c16judge {doc.split(' ')[0]} {obs}", f"c16judge {docc.split(' ')[0]} {obs}"]
-            judge2_meta.append((r, k, doc, run, obs, docc))
+            r.setdefault("verdicts", {})[k] = (doc, run, docc)
         else:
             which, verdict, name, dsc = k
             m = pouts[pos]
@@ -312,23 +389,67 @@ def main():
             elif (cm == "npu") != verdict and not cm.startswith("raised"):
                 insitu_dis.append((r, which, verdict, name, dsc, m))
             ck.count(f"insitu_{which}_{'npu' if verdict else 'cpu'}")
-    j2 = ck.model(judge2)
-    nets_ok = set()
-    # soundness of the observation: every non-Ethos-U operator of the output file is one of the source operators
-    unmatched = []
+    # Every source operator is accounted for exactly once, where the report says (Spec/Placement.lean on the two files as
+    # the plain walker sees them): Python only routes the documented verdict of source operator j to position j.
+    creqs, cres = [], []
     for r in results:
-        if r.get("status") != "ok" or "cpu_ops" not in r:
+        if r.get("status") != "ok" or "graph_toks" not in r:
             continue
-        srcs = [(builtin_of(s["type"]), set(s["out_names"])) for s in r.get("src", [])]
-        for c, names in r["cpu_ops"]:
-            if (c, set(names)) not in srcs:
-                unmatched.append((r, c, names))
-    for r, c, names in unmatched[:3]:
-        ck.violation(f"output file holds a CPU operator (builtin {c}, outputs {names}) that is not a source operator ({r['label']}, {r['opts']})",
-                     {"label": r["label"], "opts": r["opts"], "builtin": c, "outputs": names, "seed": ck.seed, "index": r["idx"]})
+        n = r.get("n_src_ops", 0)
+        pred, predc = ["-"] * n, ["-"] * n
+        for k, s in enumerate(r.get("src", [])):
+            if 0 <= s["op_index"] < n and k in r.get("verdicts", {}):
+                doc, _run, docc = r["verdicts"][k]
+                pred[s["op_index"]], predc[s["op_index"]] = doc.split(" ")[0], docc.split(" ")[0]
+        creqs.append(f"c16cover pred={','.join(pred)} predc={','.join(predc)} " + r["graph_toks"])
+        cres.append(r)
+    structure = []
+    judge2_meta = []
+    for r, ans in zip(cres, ck.model(creqs)):
+        head = ans.split(" ", 6)
+        ck.count("cover_" + head[0])
+        if head[0] not in ("ok", "bad", "pre") or len(head) < 6:
+            raise common.InfraError(f"c16cover: unexpected answer {ans[:200]} ({r['label']})")
+        if head[0] == "pre":
+            continue        # the generated SOURCE is malformed on purpose (dangling index ...): nothing to judge
+        f = {t.split("=", 1)[0]: t.split("=", 1)[1] for t in head[1:6]}
+        fates, judged, judgedc = [x.split(",") if x else [] for x in (f["fates"], f["judged"], f["judgedc"])]
+        r["fates"] = fates
+        for ft in fates:
+            ck.count("fate_" + ft)
+        if head[0] == "bad":
+            structure.append((r, head[6] if len(head) > 6 else ""))
+        for k, s in enumerate(r.get("src", [])):
+            j = s["op_index"]
+            if not (0 <= j < len(fates)) or k not in r.get("verdicts", {}):
+                continue
+            doc, run, docc = r["verdicts"][k]
+            judge2_meta.append((r, k, doc, run, fates[j], docc, judged[j], judgedc[j]))
+        # operators of the file the reader did not present (not reachable from an output ...) are judged "accounted" only
+        for j, ok in enumerate(judged):
+            if ok != "1" and not any(s["op_index"] == j for s in r.get("src", [])):
+                structure.append((r, f"unaccounted|source operator {j} (not presented by the reader): {fates[j]}"))
+    mark(f"{len(creqs)} cover requests")
+    nets_ok = set()
+    rep_struct = collections.Counter()
+    for r, probs in structure:
+        for pr in probs.split(" ~ ")[:3]:
+            kind = pr.split("|")[0].strip().split(" ")[-1]
+            rep_struct[kind] += 1
+            ck.count("structure_" + kind)
+            if rep_struct[kind] > 2:
+                continue
+            if kind in ("operator-lost", "preserved-and-absorbed", "operator-duplicated", "unaccounted", "operator-without-source", "operator-ambiguous-source"):
+                why = "a source operator is not accounted for exactly once (inside an Ethos-U operator or on the CPU)"
+            elif kind.startswith("ethosu-") or kind in ("internal", "dangling-index", "duplicate-tensor-name", "two-producers", "not-topological"):
+                why = "the output file is not a well-formed placement of the source operators"
+            else:
+                why = "an operator left on the CPU is not written unchanged"
+            ck.violation(f"'{r['label']}' ({' '.join(r['opts'][1:])}): {why}: {pr[:300]}",
+                         {"label": r["label"], "opts": r["opts"], "seed": ck.seed, "index": r["idx"], "problems": probs[:2000], "fates": r.get("fates"),
+                          "lean": "VelaVerif.Placement.report (Spec/Placement.lean)"}, found_input=True, key=structure_key(r, kind, pr))
     committed_doc = []
-    for n, (r, k, doc, run, obs, docc) in enumerate(judge2_meta):
-        j, jc = j2[2 * n], j2[2 * n + 1]
+    for (r, k, doc, run, obs, docc, j, jc) in judge2_meta:
         s = r["src"][k]
         ck.count(f"placement_{s['type']}_{obs}")
         ck.count("pipeline_doc_" + doc.split(" ")[0])
@@ -366,12 +487,12 @@ def main():
                 same_reqs.append(" ".join([f"c16same {srcs[0]['canon']} {o['canon']}"] + al))
                 same_meta.append((r, srcs[0], o))
     changed = [(m, a) for m, a in zip(same_meta, ck.model(same_reqs)) if a != "1"]
+    mark(f"{len(same_reqs)} c16same requests")
     ck.count("cpu_ops_compared_with_source", len(same_reqs))
     rep_changed = 0
     for (r, so, oo), _a in changed:
-        parts_s, parts_o = so["canon"].split("|"), oo["canon"].split("|")
-        what = [n for n, x, y in zip(("code", "custom code", "options type", "options", "custom options", "inputs", "outputs"), parts_s, parts_o) if x != y]
-        key = f"cpu-op-changed:{so['code']}:{'+'.join(w.replace(' ', '_') for w in what)}"
+        what = c16_lib.canon_diff(so["canon"], oo["canon"])
+        key = f"cpu-op-changed:{so['code']}:{'+'.join(w.replace(' ', '_') for w in what)}" + (":force-symmetric" if "--force-symmetric-int-weights" in r["opts"] else "")
         if ck.finding_key_known(key) is None:
             rep_changed += 1
             if rep_changed > 4:
@@ -418,12 +539,35 @@ def main():
     for r, a, b in console_bad[:3]:
         ck.violation(f"console says {a} CPU operators, the output file holds {b} ({r['label']}, {r['opts']})",
                      {"label": r["label"], "opts": r["opts"], "console": a, "output_file": b, "seed": ck.seed, "index": r["idx"]})
+    def printed_constraint(r, opname):
+        """the constraint whose sentence the real checker printed when it put operator `opname` on the CPU (or None)"""
+        mm = re.search(r"Warning: [^\n]*'" + re.escape(opname) + r"'[^\n]*\n - ([^\n]*)\n", r.get("stdout") or "")
+        if not mm:
+            return None
+        hits = [k for which_ in ("sup", "sem") for k, d_ in rc.docs[which_].items() if d_.split("\n")[0] == mm.group(1)]
+        return hits[0] if len(hits) == 1 else None
+
+    def insitu_key(r, which, verdict, name, m):
+        cm = c16_lib.canon_model(m)
+        if cm.startswith("cpu ") and verdict:
+            return f"insitu:{which}:model-rejects:{cm.split(' ')[1]}"
+        if cm == "npu" and not verdict and printed_constraint(r, name):
+            return f"insitu:{which}:real-rejects:{printed_constraint(r, name)}"
+        return None
+
+    pending_insitu = [t for t in insitu_dis if ck.finding_key_known(insitu_key(t[0], t[1], t[2], t[3], t[5])) is not None]
+    for r, which, verdict, name, dsc, m in pending_insitu:
+        ck.violation(f"constraint function differs from its repaired model on an operator the {which} checker saw during a real compilation "
+                     f"({r['label']}, op {name}): real {'npu' if verdict else 'cpu'}, model '{m}'",
+                     {"label": r["label"], "opts": r["opts"], "descriptor": dsc[:3000], "model": m, "real": verdict, "seed": ck.seed, "index": r["idx"]},
+                     found_input=True, key=insitu_key(r, which, verdict, name, m))
+    insitu_dis = [t for t in insitu_dis if t not in pending_insitu]
     for r, which, verdict, name, dsc, m in insitu_dis[:3]:
         ck.violation(f"correspondence broken on an operator the {which} checker saw during a real compilation ({r['label']}, op {name}): "
                      f"real {'npu' if verdict else 'cpu'}, model '{m}'",
                      {"correspondence": f"c16 {which} (in situ)", "label": r["label"], "opts": r["opts"], "descriptor": dsc[:3000], "model": m,
                       "real": verdict, "seed": ck.seed, "index": r["idx"]}, found_input=False)
-    known_place = classify_placement(ck, placement, explore)
+    known_place = classify_placement(ck, placement, explore, printed_constraint)
     if explore:
         for r, k, doc, run, obs in placement[:60]:
             print("PLACE", r["label"], r["opts"][1], r["src"][k]["type"], "doc:", doc[:90], "| model run:", run[:70], "| observed:", obs)
@@ -431,10 +575,12 @@ def main():
             print("INSITU", r["label"], which, verdict, name, m)
         print("c13 skipped", c13_skipped, "placement disagreements", len(placement), "known", known_place)
 
-    for r in results[:3]:
+    picked = results[:2] + [r for r in results if "[then " in r["label"] and r.get("fates")][:2] + [r for r in results if " in front]" in r["label"] and r.get("fates")][:1]
+    for r in picked:
         if r.get("src"):
             ck.sample({"network": r["label"], "opts": r["opts"], "status": r["status"],
-                       "source_ops": [s["type"] for s in r["src"]], "cpu_ops_in_output": len(r.get("cpu_ops", []))})
+                       "source_ops": [s["type"] for s in r["src"]], "documented": [r.get("verdicts", {}).get(k, ("-",))[0][:60] for k in range(len(r["src"]))],
+                       "fates_in_output_file": r.get("fates"), "cpu_ops_in_output": len(r.get("cpu_ops", []))})
     sup_never = sorted(n for n in rc.docs["sup"] if ck.counters.get("failed_" + n, 0) == 0)
     sem_never = sorted(n for n in rc.docs["sem"] if ck.counters.get("failed_" + n, 0) == 0)
     ck.finish({
@@ -451,11 +597,16 @@ def main():
         "compilations": len(results), "compilations_skipped_c13": c13_skipped, "compilations_crashed_elsewhere": len(crashes), "source_ops_judged": len(judge2_meta),
         "placement_disagreements": len(placement), "placement_known": known_place,
         "cpu_ops_compared_with_source": len(same_reqs), "cpu_ops_changed": len(changed),
+        "compilations_covered_in_lean": len(creqs), "compilations_with_structure_problems": len(structure),
+        "source_operator_fates": {k[5:]: v for k, v in ck.counters.items() if k.startswith("fate_")},
+        "neighbour_networks": dict(collections.Counter(getattr(n_, "neighbour", None) or "none" for _l, n_ in nets)),
         "operators_seen_by_checkers_in_situ": seen_ops, "in_situ_disagreements": len(insitu_dis),
         "unreached_branches": {"supported_constraints_never_failing_in_stubs": sup_never, "semantic_constraints_never_failing_in_stubs": sem_never},
         "exhaustive": False,
+        "pending_repairs_open_in_this_tree": sorted(open_pending),
     }, assumptions=["Vela's tflite_reader is the translation source operator -> internal operator for the pipeline-level prediction",
-                    "a source operator 'stays on the CPU' iff the output file holds an operator with the same builtin code and the same output tensor names",
+                    "a source operator 'stays on the CPU' iff exactly one non-Ethos-U operator of the output file produces tensors with the names of its results "
+                    "(then compared verbatim); it is 'on the NPU' iff none does and it lies in the backward slice of an Ethos-U operator (names of results down to names of operands)",
                     "compilations that die with a non-Vela exception are C13's subject and are skipped (counted)"])
 
 
@@ -467,6 +618,7 @@ def replay(ck, path):
 
     import c16_lib
     import c16_nets
+    import c16_opts_nets
     import fbwalk
     import netgen
 
@@ -490,24 +642,41 @@ def replay(ck, path):
         else:
             print("case not found")
     elif "index" in body:
-        nets = c16_nets.cases(random.Random(seed * 7919 + 16), rp.get("tier") == "thorough")
+        nets = c16_opts_nets.all_cases(random.Random(seed * 7919 + 16), rp.get("tier") == "thorough")
         label, net = nets[int(body["index"])]
         r = _compile_job((seed, int(body["index"]), label, netgen.serialize(net), body["opts"], getattr(net, "tgt", None)))
         print(f"network '{label}' {body['opts']}: {r.get('status')} {r.get('exc', '')}")
         if r.get("status") == "ok" and r.get("out_model") is not None:
             cpu_ops, n_npu = observed_cpu_ops(fbwalk.parse(r["out_model"]))
             print(f"  output file: {len(cpu_ops)} CPU operators {cpu_ops}, {n_npu} Ethos-U operators")
+            n = r.get("n_src_ops", 0)
+            pred, predc, info = ["-"] * n, ["-"] * n, {}
             for s in r.get("src", []):
                 doc, place, docc = ck.model([f"c16 doc {s['desc']}", f"c16 place {s['desc']}", f"c16 docc {s['desc']}"], parallel=False)
-                print(f"  {s['type']} -> {s['out_names']}: report says {doc} | model {place} | committed document says {docc}")
-                from ethosu.vela.operation import Op as VOp
-                from ethosu.vela.tflite_mapping import builtin_operator_inv_map
-                e = builtin_operator_inv_map.get(getattr(VOp, s["type"]))
-                on_cpu = any(e is not None and c == int(e[0]) and set(names) == set(s["out_names"]) for c, names in cpu_ops)
-                obs = "cpu" if on_cpu else "npu"
-                if ck.model([f"c16judge {doc.split(' ')[0]} {obs}"], parallel=False)[0] != "1":
-                    print(f"    observed {obs}: DISAGREES with the report")
-                    bad = True
+                if 0 <= s["op_index"] < n:
+                    pred[s["op_index"]], predc[s["op_index"]] = doc.split(" ")[0], docc.split(" ")[0]
+                    info[s["op_index"]] = (s, doc, place, docc)
+            ans = ck.model([f"c16cover pred={','.join(pred)} predc={','.join(predc)} " + r["graph_toks"]], parallel=False)[0]
+            head = ans.split(" ", 6)
+            print("  Spec/Placement.lean:", " ".join(head[:6])[:600])
+            if len(head) > 6:
+                for pr in head[6].split(" ~ "):
+                    print("    problem:", pr[:400])
+            if head[0] == "bad":
+                bad = True
+            f = {t.split("=", 1)[0]: t.split("=", 1)[1] for t in head[1:6] if "=" in t}
+            fates, judged = f.get("fates", "").split(","), f.get("judged", "").split(",")
+            for jx in range(n):
+                s, doc, place, docc = info.get(jx, ({"type": "?", "out_names": []}, "-", "-", "-"))
+                ok = jx < len(judged) and judged[jx] == "1"
+                print(f"  source operator {jx} {s['type']} -> {s['out_names']}: report says {doc} | model {place} | committed document says {docc} | "
+                      f"fate in the output file: {fates[jx] if jx < len(fates) else '?'}" + ("" if ok else "   <-- DISAGREES / not accounted for exactly once"))
+                if not ok and head[0] != "pre":
+                    key = placement_key(s, doc, place, fates[jx] if jx < len(fates) else "?")
+                    if key is None or ck.finding_key_known(key) is None:
+                        bad = True
+                    else:
+                        print(f"    (known finding {key})")
             outs_rec = [x for x in c16_lib.op_records(r["out_model"]) if not (x["code"] == 32 and x["custom"] == "ethos-u")]
             for o in outs_rec:
                 for so in [x for x in r.get("src_records", []) if x["code"] == o["code"] and x["outs"] == o["outs"]]:
@@ -525,12 +694,39 @@ def replay(ck, path):
     os._exit(1 if bad else 0)
 
 
+def structure_key(r, kind, pr):
+    """key of the one recorded defect the strict comparison also sees (patch C11-20: --force-symmetric-int-weights zeroes the
+    per-axis zero points of CONSTANT weights of a convolution that stays on the CPU), or None.  Given only when the problem is
+    exactly "zero points of operand 1 of builtin 3 / 4 differ", the option is present, and the records of that operator differ in
+    nothing but operand 1's zero points, written as all 0 for a constant per-axis tensor (c16_lib.canon_diff)."""
+    import c16_lib
+
+    m = re.match(r"operand-quantisation\|operator \d+ \(builtin (3|4)\) operand 1 \(zero-point\) [0-9a-f]*$", pr.strip())
+    if kind != "operand-quantisation" or not m or "--force-symmetric-int-weights" not in r["opts"]:
+        return None
+    code = int(m.group(1))
+    for o in r.get("out_records", []):
+        if o["code"] != code:
+            continue
+        for so in [x for x in r.get("src_records", []) if x["code"] == code and x["outs"] == o["outs"]]:
+            if c16_lib.canon_diff(so["canon"], o["canon"]) == ["operand1-zero-points-zeroed-const-per-axis"]:
+                return f"cpu-op-changed:{code}:operand1-zero-points-zeroed-const-per-axis:force-symmetric"
+    return None
+
+
 # keys of known_findings.txt for placement differences of the unchanged tree (see design.d/C16.md)
-def classify_placement(ck, placement, explore):
+def classify_placement(ck, placement, explore, printed_constraint=None):
     known, reported = 0, 0
     for r, k, doc, run, obs in placement:
         s = r["src"][k]
         key = placement_key(s, doc, run, obs)
+        if key is None and printed_constraint is not None and doc.split(" ")[0] == "npu" and obs == "cpu":
+            # the report (read through the repaired model) accepts the operator, the compiler printed which constraint put it on
+            # the CPU: that constraint's function and its sentence disagree (known only while a repair of it is pending)
+            for nm in s["out_names"]:
+                c = printed_constraint(r, nm)
+                if c:
+                    key = "placement:real-rejects:" + c
         rp = {"label": r["label"], "opts": r["opts"], "seed": ck.seed, "index": r["idx"], "operator": s["type"], "outputs": s["out_names"],
               "documented": doc, "model_run_on_npu": run, "observed": obs, "descriptor": s["desc"][:3000],
               "replay": "harness/c16_nets.cases(Random(seed*7919+16))[index] -> netgen.serialize -> vela"}
